@@ -65,10 +65,9 @@ def mkline(fam, n, p, x, y, w, off, alpha, tol, maxiter):
         f2h(alpha), f2h(tol), maxiter)
 
 
-def parse_line(line):
-    t = line.split()
-    fam, n, p = t[1], int(t[2]), int(t[3])
-    k = 4
+def _parse_problem(t, k):
+    n, p = int(t[k]), int(t[k + 1])
+    k += 2
     x = [h2f(s) for s in t[k:k + n * p]]
     k += n * p
     y = [h2f(s) for s in t[k:k + n]]
@@ -82,8 +81,47 @@ def parse_line(line):
             m = int(t[k + 1])
             opt.append([h2f(s) for s in t[k + 2:k + 2 + m]])
             k += 2 + m
+    return (n, p, x, y, opt[0], opt[1]), k
+
+
+def parse_line(line):
+    """`glm` line, or `glm2` line reduced to the problem the second fit sees (weights / offsets of the first fit persist)"""
+    t = line.split()
+    fam = t[1]
+    if t[0] == "glm2":
+        alpha, tol, maxiter = h2f(t[2]), h2f(t[3]), int(t[4])
+        (n1, p1, x1, y1, w1, o1), k = _parse_problem(t, 5)
+        (n, p, x, y, w, off), k = _parse_problem(t, k)
+        return fam, n, p, x, y, (w if w is not None else w1), (off if off is not None else o1), alpha, tol, maxiter
+    (n, p, x, y, w, off), k = _parse_problem(t, 2)
     alpha, tol, maxiter = h2f(t[k]), h2f(t[k + 1]), int(t[k + 2])
-    return fam, n, p, x, y, opt[0], opt[1], alpha, tol, maxiter
+    return fam, n, p, x, y, w, off, alpha, tol, maxiter
+
+
+def probtoks(n, p, x, y, w, off):
+    return "%d %d %s %s %s %s" % (n, p, fs(x), fs(y), "0" if w is None else "1 " + vec(w), "0" if off is None else "1 " + vec(off))
+
+
+def mkline2(fam, alpha, tol, maxiter, prob1, prob2):
+    return "glm2 %s %s %s %d %s %s" % (fam, f2h(alpha), f2h(tol), maxiter, probtoks(*prob1), probtoks(*prob2))
+
+
+def sum8(xs):
+    """`utils::sum`: the 8-way unrolled association of the source, in doubles"""
+    s, k = 0.0, 0
+    while k + 8 <= len(xs):
+        s += ((((((xs[k] + xs[k + 1]) + xs[k + 2]) + xs[k + 3]) + xs[k + 4]) + xs[k + 5]) + xs[k + 6]) + xs[k + 7]
+        k += 8
+    for v in xs[k:]:
+        s += v
+    return s
+
+
+def round_as_usize(v):
+    """`v.round() as usize`: half away from zero, saturating, NaN -> 0"""
+    if v != v or v <= 0:
+        return 0
+    return min(int(math.floor(v + 0.5)) if v < 2.0 ** 52 else int(v), 2 ** 64 - 1)
 
 
 def parse_vec(toks, k):
@@ -107,6 +145,7 @@ def parse_result(toks):
     r["pred"], k = parse_vec(toks, k)
     r["aic"] = h2f(toks[k])
     r["bic"] = h2f(toks[k + 1])
+    r["score"] = None if (len(toks) <= k + 2 or toks[k + 2] == "P") else h2f(toks[k + 2])
     return r
 
 
@@ -300,20 +339,208 @@ def gen(rng, tier):
                         k += 1
                         lines.append(mkline(fam, n, pp, x, y, w, off, alpha, rng.choice([1e-8, 1e-10, 1e-12]), 200))
                         cover["weight_structure"][kind] = cover["weight_structure"].get(kind, 0) + 1
+    generic_strata(rng.fork("generic"), tier, lines, cover)
     return lines, cover
+
+
+SPECIAL_ALPHAS = [-0.0, 0.5, 1.0 / 3.0, 2.0, 3.0, 1e-300, -1.0, 0.1 * (1 + EPS)]
+SPECIAL_TOLS = [0.0, 1.0, 0.5, 1e-16, 1e-300, float("inf"), 1e-5 * (1 + EPS), 1e-14]
+BOUNDARY_N = {"quick": [23, 24, 25, 31, 32, 33, 63, 64, 65, 127, 128, 129],
+              "thorough": [23, 24, 25, 31, 32, 33, 39, 40, 41, 63, 64, 65, 127, 128, 129, 255, 256, 257, 499, 500]}
+
+
+def raw_design(rng, n, p):
+    """intercept + NON-centred columns (0/1 indicators, raw powers of t in [0, 2]): the intercept is coupled to every slope"""
+    t = [rng.uniform(0.0, 2.0) for _ in range(n)]
+    cols = [[1.0] * n]
+    deg = 1
+    for j in range(p - 1):
+        if j % 2 == 0:
+            while True:
+                c = [1.0 if rng.random() < 0.4 else 0.0 for _ in range(n)]
+                if 2 <= sum(c) <= n - 2:
+                    break
+            cols.append(c)
+        else:
+            cols.append([ti ** deg for ti in t])
+            deg += 1
+    return [cols[j][i] for i in range(n) for j in range(p)]
+
+
+def respond(rng, fam, n, p, x, off, b0=None, bscale=0.7):
+    beta = [rng.uniform(-1.5, 1.5) * bscale for _ in range(p)]
+    beta[0] = rng.uniform(-1.0, 1.2) if b0 is None else b0
+    eta = [sum(x[i * p + j] * beta[j] for j in range(p)) + (off[i] if off else 0.0) for i in range(n)]
+    return simulate(rng, fam, eta)
+
+
+def generic_strata(rng, tier, lines, cover):
+    """tools/GENERIC_STRATA.md: exact special values, size boundaries, threshold bands, object reuse, extreme scale."""
+    g = cover.setdefault("generic", {})
+
+    def add(tag, line):
+        lines.append(line)
+        g[tag] = g.get(tag, 0) + 1
+
+    def small(fam, p=None, nlo=20, nhi=48, has_w=None, has_off=None):
+        pp = p or rng.randint(1, 3)
+        n = rng.randint(max(nlo, 15 * pp if fam == "bernoulli" else nlo), max(nhi, 15 * pp + 5))
+        x, y, w, off, _ = problem(rng, fam, n, pp, rng.chance(0.5) if has_w is None else has_w,
+                                  rng.chance(0.5) if has_off is None else has_off)
+        return n, pp, x, y, w, off
+
+    reps = 1 if tier == "quick" else 3
+    for rep in range(reps):
+        # (2) size boundaries of n (8-way unrolled kernels: residues mod 8, powers of two and neighbours)
+        for k, n in enumerate(BOUNDARY_N[tier]):
+            fam = FAMILIES[(k + rep) % 6]
+            pp = rng.randint(1, min(6, max(1, n // 15))) if fam == "bernoulli" else rng.randint(1, 6)
+            x, y, w, off, _ = problem(rng, fam, n, pp, rng.chance(0.5), rng.chance(0.5))
+            add("size-boundary", mkline(fam, n, pp, x, y, w, off, rng.choice(ALPHAS), rng.choice(TOLS), 100))
+        # (1) special values of alpha and of the tolerance (outside the quantifier: tie + exact checks; inside: all checks)
+        for k, a in enumerate(SPECIAL_ALPHAS):
+            fam = FAMILIES[(k + rep) % 6]
+            n, pp, x, y, w, off = small(fam)
+            add("special-alpha", mkline(fam, n, pp, x, y, w, off, a, rng.choice([1e-8, 1e-10]), 100))
+        for k, tl in enumerate(SPECIAL_TOLS):
+            fam = FAMILIES[(k + 3 + rep) % 6]
+            n, pp, x, y, w, off = small(fam)
+            add("special-tol", mkline(fam, n, pp, x, y, w, off, rng.choice(ALPHAS), tl, 60))
+        # (1)/(3) fractional weights: sum with fractional part exactly .5 / .75 / .25 (dyadic, exact), sums that are an integer in
+        # exact arithmetic but not in doubles (0.1, 1.1, 0.7 ...), and a last weight tuned so that the sum lands next to k or k + .5
+        for k, fam in enumerate(FAMILIES + ["gaussian", "gamma", "quasipoisson"]):
+            n, pp, x, y, _, off = small(fam, has_w=False)
+            kind = (k + rep) % 4
+            if kind == 0:
+                w = [rng.choice([0.25, 0.5, 0.75, 1.25, 1.5, 2.5]) for _ in range(n)]
+                w[-1] += rng.choice([0.0, 0.25, 0.5])
+            elif kind == 1:
+                w = [rng.choice([0.1, 1.1, 0.7, 0.3, 2.3])] * n
+            elif kind == 2:
+                w = [rng.uniform(0.5, 2.0) for _ in range(n - 1)]
+                target = math.floor(sum(w)) + 1 + rng.choice([0.0, 0.5])
+                last = target - sum8(w)
+                w.append(last * (1 + rng.choice([-2, -1, 0, 1, 2]) * EPS))
+            else:
+                w = [rng.uniform(0.0, 1.0) for _ in range(n)]
+                w[rng.randint(0, n - 1)] = 0.0        # an observation with weight exactly zero
+            add("fractional-weights", mkline(fam, n, pp, x, y, w, off, rng.choice([0.0, 0.0, 1.0]), 1e-10, 200))
+        # (4) every family x kinds of offsets through fit, predict and score (Gaussian with offsets included)
+        for fam in FAMILIES:
+            for okind in ("random", "zeros", "negzeros", "integers"):
+                pp = rng.randint(1, 3)
+                n = rng.randint(max(20, 15 * pp), 50)
+                x, _ = design_matrix(rng, n, pp)
+                off = {"random": [0.5 * rng.normal() for _ in range(n)], "zeros": [0.0] * n, "negzeros": [-0.0] * n,
+                       "integers": [float(rng.randint(-2, 2)) for _ in range(n)]}[okind]
+                y = respond(rng, fam, n, pp, x, off)
+                w = [rng.uniform(0.5, 2.0) for _ in range(n)] if rng.chance(0.3) else None
+                add("offsets-" + okind, mkline(fam, n, pp, x, y, w, off, rng.choice(ALPHAS), 1e-10, 200))
+        # (1) exact-zero / integer / half-integer responses
+        for k in range(8):
+            fam = ["gaussian", "poisson", "quasipoisson", "gaussian"][k % 4]
+            pp = rng.randint(1, 3)
+            n = rng.randint(20, 40)
+            x, _ = design_matrix(rng, n, pp)
+            if fam == "gaussian":
+                y = [rng.choice([0.0, -0.0, 0.5, 1.0, -1.0, 2.0, 1.5, 1.0 / 3.0, 3.0]) for _ in range(n)]
+            else:
+                y = respond(rng, fam, n, pp, x, None, b0=rng.uniform(-1.5, -0.3))   # mostly zero counts
+                if sum(y) == 0:
+                    y[0] = 1.0
+            add("exact-zero-responses", mkline(fam, n, pp, x, y, None, None, rng.choice(ALPHAS), 1e-8, 200))
+        # (3) threshold band of exp overflow: the start value is eta = mean(y) on the LINK scale; exp(709.78) is the largest
+        # finite double.  An error must be reported, never a success with non-finite values.
+        for k, m in enumerate([600.0, 700.0, 705.0, 709.0, 709.78, 710.0, 712.0, 800.0, 1575.0, 1.0e4]):
+            fam = ["poisson", "quasipoisson", "gamma", "exponential"][(k + rep) % 4]
+            pp = rng.randint(1, 2)
+            n = rng.randint(20, 30)
+            x, _ = design_matrix(rng, n, pp)
+            y = [float(max(1, round(m * (1 + 0.05 * rng.normal())))) for _ in range(n)]
+            sh = m - sum8(y) / n
+            y = [v + float(round(sh)) for v in y]
+            off = [math.log(1000.0) + 0.1 * rng.normal() for _ in range(n)] if rng.chance(0.5) else None
+            add("exp-overflow", mkline(fam, n, pp, x, y, None, off, rng.choice([0.0, 0.1]), 1e-8, rng.choice([5, 50, 200, 1200])))
+        # (3) iteration budget: max_iter = 0..9 on the same problem brackets the pass at which convergence is declared
+        for fam in FAMILIES:
+            n, pp, x, y, w, off = small(fam, nhi=30)
+            a, tl = rng.choice(ALPHAS), rng.choice([1e-5, 1e-8, 1e-12])
+            for mi in range(0, 10):
+                add("max-iter-sweep", mkline(fam, n, pp, x, y, w, off, a, tl, mi))
+        # (2) n = p - 1, p, p + 1, p + 2 (saturated / underdetermined; dispersion divides by n - p)
+        for fam in FAMILIES:
+            for pp in (1, 2, 3):
+                for n in (max(1, pp - 1), pp, pp + 1, pp + 2):
+                    x, _ = design_matrix(rng, max(n, 4), pp)
+                    x = x[:n * pp]
+                    y = respond(rng, fam, n, pp, x, None)
+                    if fam in ("gamma", "exponential"):
+                        y = [max(v, 0.01) for v in y]
+                    add("n-near-p", mkline(fam, n, pp, x, y, None, None, rng.choice([0.0, 1.0]), 1e-8, 30))
+        # (1) non-centred indicator / raw polynomial columns: the intercept is coupled to the slopes (ridge: the intercept
+        # differs from mean(y)); every family x alpha > 0
+        for fam in FAMILIES:
+            for a in (0.1, 1.0, 10.0):
+                pp = rng.randint(2, 4)
+                n = rng.randint(max(24, 15 * pp), 70)
+                x = raw_design(rng, n, pp)
+                off = [0.3 * rng.normal() for _ in range(n)] if rng.chance(0.4) else None
+                y = respond(rng, fam, n, pp, x, off, bscale=0.4)
+                w = [rng.uniform(0.5, 2.0) for _ in range(n)] if rng.chance(0.4) else None
+                add("coupled-intercept", mkline(fam, n, pp, x, y, w, off, a, rng.choice([1e-8, 1e-12]), 200))
+        # (3) is_design: |x_i0 - 1| > EPSILON rejects; entries within one EPSILON of 1 are accepted and used as they are
+        for d in (EPS, -EPS, EPS / 2, 2 * EPS, -2 * EPS, 1.5 * EPS):
+            fam = rng.choice(FAMILIES)
+            n, pp, x, y, w, off = small(fam, nhi=30)
+            x = list(x)
+            x[rng.randint(0, n - 1) * pp] = 1.0 + d
+            add("design-threshold", mkline(fam, n, pp, x, y, w, off, 0.0, 1e-8, 100))
+        # (4) one GLM object fitted twice: nothing of the first fit may leak into the second, except the weights / offsets that
+        # were set and not set again.  Each `glm2` line is followed by the direct fit of the problem the second call sees.
+        for k in range(12):
+            fam = FAMILIES[(k + rep) % 6]
+            a, tl = rng.choice(ALPHAS), rng.choice([1e-6, 1e-10])
+            n1, p1, x1, y1, w1, o1 = small(fam, has_w=(k % 3 == 0), has_off=(k % 4 == 1))
+            mode = k % 4
+            if mode == 0:      # same size, fresh weights / offsets set again (or the old ones kept when none are given)
+                n2, p2 = n1, rng.randint(1, 3)
+                n2 = max(n2, 15 * p2) if fam == "bernoulli" else n2
+                if n2 != n1:
+                    n2, p2 = n1, 1
+                x2, y2, w2, o2, _ = problem(rng, fam, n2, p2, rng.chance(0.5), rng.chance(0.5))
+            elif mode == 1:    # long then short
+                n2, p2, x2, y2, w2, o2 = small(fam, nlo=20, nhi=24, has_w=w1 is not None, has_off=o1 is not None)
+            elif mode == 2:    # short then long, different column count
+                n2, p2, x2, y2, w2, o2 = small(fam, p=rng.randint(2, 3), nlo=50, nhi=60, has_w=w1 is not None, has_off=o1 is not None)
+            else:              # the first fit fails to converge (budget 1..2 passes); the second inherits nothing
+                n2, p2, x2, y2, w2, o2 = small(fam, has_w=w1 is not None, has_off=o1 is not None)
+            mi = rng.choice([1, 2]) if mode == 3 else 100
+            add("refit", mkline2(fam, a, tl, mi, (n1, p1, x1, y1, w1, o1), (n2, p2, x2, y2, w2, o2)))
+            if n2 == n1 or ((w2 is not None or w1 is None) and (o2 is not None or o1 is None)):
+                lines.append("# same")
+                lines.append(mkline(fam, n2, p2, x2, y2, w2 if w2 is not None else w1, o2 if o2 is not None else o1, a, tl, mi))
+        # (5) extreme scale: the unpenalised Gaussian fit is exactly equivariant under y, offset -> 2^k y, 2^k offset
+        for k in (1, -1, 52, -52, 100, -100, 200, -200):
+            pp = rng.randint(1, 4)
+            n = rng.randint(20, 40)
+            x, y, w, off, _ = problem(rng, "gaussian", n, pp, rng.chance(0.5), rng.chance(0.5))
+            tl, mi = rng.choice([1e-6, 1e-10]), rng.choice([2, 3, 50])
+            add("scale", mkline("gaussian", n, pp, x, y, w, off, 0.0, tl, mi))
+            lines.append("# scale %d" % k)
+            lines.append(mkline("gaussian", n, pp, x, [math.ldexp(v, k) for v in y], w,
+                                None if off is None else [math.ldexp(v, k) for v in off], 0.0, tl, mi))
 
 
 def nontrivial(line, reply):
     if not line.startswith("glm") or not reply.startswith("="):
         return None
-    t = line.split()
-    fam, n, p = t[1], int(t[2]), int(t[3])
     try:
-        _, _, _, _, _, w, off, alpha, tol, _ = parse_line(line)
+        fam, n, p, _, _, w, off, alpha, tol, _ = parse_line(line)
     except Exception:
         return None
-    return "%s p=%d w=%d off=%d a=%g tol=%d st=%s" % (fam, p, w is not None, off is not None, alpha,
-                                                      round(-math.log10(tol)), reply.split()[1])
+    dec = round(-math.log10(tol)) if (tol > 0 and math.isfinite(tol)) else -1
+    return "%s %s p=%d w=%d off=%d a=%g tol=%d st=%s" % (line.split()[0], fam, p, w is not None, off is not None, alpha,
+                                                         dec, reply.split()[1])
 
 
 # ---------------------------------------------------------------- oracle (mpmath)
@@ -388,7 +615,7 @@ def cond_est(mp, M, p):
     return nrm(M) * nrm(Mi), Mi
 
 
-STATS = {"score": 0.0, "dev": 0.0, "cov": 0.0, "se": 0.0, "pred": 0.0, "gauss": 0.0, "perm": 0.0, "bic": 0.0}
+STATS = {"score": 0.0, "dev": 0.0, "cov": 0.0, "se": 0.0, "pred": 0.0, "gauss": 0.0, "perm": 0.0, "bic": 0.0, "scoreacc": 0.0}
 WHERE = {}
 
 
@@ -411,12 +638,45 @@ def check_fit(mp, i, line, rep, fails):
         fails.append(Failure(i, "shape:" + key0, "coef has %s entries, expected %d" % (None if beta is None else len(beta), p)))
         return None
     finite = all(math.isfinite(b) for b in beta) and math.isfinite(r["dev"])
+    tiny = mp.mpf(10) ** -300
+    # ---- 4. exact accessor formulas (whatever the status): dispersion = deviance / (n_w - p) with n_w = round(sum8(w)) for the
+    #         dispersion families, 1 otherwise;  aic = dev + 2p;  bic = dev + p ln n_w;  se = sqrt(diag(cov))
+    nw = round_as_usize(sum8(w)) if w is not None else n
+    if math.isfinite(r["dev"]):
+        if HAS_DISP[fam]:
+            if nw < p:
+                if r["disp"] is not None:
+                    fails.append(Failure(i, "dispersion:" + key0, "n - p underflows but dispersion returned a value"))
+            elif nw != p:
+                exp = r["dev"] / float(nw - p)
+                if r["disp"] is None or f2h(r["disp"]) != f2h(exp):
+                    fails.append(Failure(i, "dispersion:" + key0, "dispersion %r, expected deviance/(n-p) = %r with n = round(sum w) = %d" % (r["disp"], exp, nw), f2h(exp)))
+        elif r["disp"] is None or r["disp"] != 1.0:
+            fails.append(Failure(i, "dispersion:" + key0, "dispersion %r, expected 1 for a family without dispersion" % (r["disp"],)))
+        aic = r["dev"] + 2.0 * float(p)
+        if f2h(aic) != f2h(r["aic"]):
+            fails.append(Failure(i, "aic:" + key0, "aic %r, expected deviance + 2p = %r" % (r["aic"], aic), f2h(aic)))
+        if nw > 0:
+            bic = mp.mpf(r["dev"]) + p * mp.log(nw)
+            berr = abs(mp.mpf(r["bic"]) - bic)
+            bsc = EPS * (abs(mp.mpf(r["dev"])) + p * abs(mp.log(nw))) + tiny
+            stat("bic", float(berr / bsc), key0)
+            if berr > 4 * bsc:
+                fails.append(Failure(i, "bic:" + key0, "bic %r, expected deviance + p ln n = %r (n = %d)" % (r["bic"], float(bic), nw), f2h(float(bic))))
+    if r["cov"] is not None and r["se"] is not None and len(r["cov"]) == p * p and len(r["se"]) == p:
+        for a in range(p):
+            v = r["cov"][a * p + a]
+            e = math.sqrt(v) if v >= 0 else float("nan")
+            if f2h(e) != f2h(r["se"][a]) and not (e == 0 and r["se"][a] == 0):
+                fails.append(Failure(i, "stderr:" + key0, "standard error %d is %r, expected sqrt of the covariance diagonal %r" % (a, r["se"][a], e), f2h(e)))
+                break
     if not r["ok"]:
-        return r      # an error was reported: nothing is promised about the stored values
+        return r      # an error was reported: nothing more is promised about the stored values
     if not finite:
         fails.append(Failure(i, "nonfinite-success:" + key0, "fit reported success with non-finite coefficients/deviance"))
         return r
-    tiny = mp.mpf(10) ** -300
+    if not (0 < tol <= 1e-4) or n <= p + 1 or not all(math.isfinite(v) for v in y):
+        return r      # outside the quantifier (tolerance 1e-5..1e-14, more observations than parameters): exact checks only
     A = analyse(mp, fam, n, p, x, y, w, off, alpha, beta)
     kH, Hi = cond_est(mp, A["H"], p)
     r["_kH"], r["_tol"], r["_n"] = float(kH), tol, n
@@ -487,32 +747,6 @@ def check_fit(mp, i, line, rep, fails):
                                  "with weights the stored deviance %r is the unweighted sum; the weighted deviance sum w_i d_i is %r "
                                  "(dispersion = deviance/(sum w - p) and the standard errors inherit the mismatch)" % (r["dev"], float(wdev)),
                                  f2h(float(wdev))))
-    # ---- 4. dispersion = deviance / (n_w - p) for the dispersion families, 1 otherwise;  aic, bic
-    from fractions import Fraction
-    sw = sum(Fraction(v) for v in w) if w is not None else Fraction(n)
-    nw = math.floor(sw + Fraction(1, 2))
-    near_half = abs((sw - math.floor(sw)) - Fraction(1, 2)) < Fraction(1, 10 ** 6)
-    if not near_half:
-        if HAS_DISP[fam]:
-            if nw < p:
-                if r["disp"] is not None:
-                    fails.append(Failure(i, "dispersion:" + key0, "n - p underflows but dispersion returned a value"))
-            else:
-                exp = (r["dev"] / float(nw - p)) if nw != p else None
-                if exp is not None and (r["disp"] is None or f2h(r["disp"]) != f2h(exp)):
-                    fails.append(Failure(i, "dispersion:" + key0, "dispersion %r, expected deviance/(n-p) = %r" % (r["disp"], exp), f2h(exp)))
-        elif r["disp"] is None or r["disp"] != 1.0:
-            fails.append(Failure(i, "dispersion:" + key0, "dispersion %r, expected 1 for a family without dispersion" % (r["disp"],)))
-        aic = r["dev"] + 2.0 * float(p)
-        if f2h(aic) != f2h(r["aic"]):
-            fails.append(Failure(i, "aic:" + key0, "aic %r, expected deviance + 2p = %r" % (r["aic"], aic), f2h(aic)))
-        if nw > 0:
-            bic = mp.mpf(r["dev"]) + p * mp.log(nw)
-            berr = abs(mp.mpf(r["bic"]) - bic)
-            bsc = EPS * (abs(mp.mpf(r["dev"])) + p * abs(mp.log(nw))) + tiny
-            stat("bic", float(berr / bsc), key0)
-            if berr > 4 * bsc:
-                fails.append(Failure(i, "bic:" + key0, "bic %r, expected deviance + p ln n = %r" % (r["bic"], float(bic)), f2h(float(bic))))
     # ---- 5. covariance = dispersion * inverse(Fisher information), standard errors = sqrt(diag).  The stored information is
     #         evaluated one scoring step before the returned beta; the working weights move by a relative
     #         exp(|x_i . step|) - 1 <= ~ max_i |x_i|_{H^-1} * sqrt(T)  (zero for the Gaussian family).
@@ -537,12 +771,6 @@ def check_fit(mp, i, line, rep, fails):
         if r["se"] is None or len(r["se"]) != p:
             fails.append(Failure(i, "stderr:" + key0, "standard errors accessor panicked or has the wrong size"))
         elif r["cov"] is not None and len(r["cov"]) == p * p:
-            for a in range(p):
-                v = r["cov"][a * p + a]
-                e = math.sqrt(v) if v >= 0 else float("nan")
-                if f2h(e) != f2h(r["se"][a]):
-                    fails.append(Failure(i, "stderr:" + key0, "standard error %d is %r, expected sqrt of the covariance diagonal %r" % (a, r["se"][a], e), f2h(e)))
-                    break
             worst = 0.0
             for a in range(p):
                 e = mp.sqrt(abs(mp.mpf(r["disp"]) * Ii[a, a]))
@@ -565,6 +793,15 @@ def check_fit(mp, i, line, rep, fails):
         stat("pred", worst / EPS, key0)
         if worst > C_PRED * EPS:
             fails.append(Failure(i, "predict:" + key0, "a prediction differs from inv_link(x.beta + offset): scaled rel err %.3e > %.3e" % (worst, C_PRED * EPS)))
+    # ---- 6b. score(x, y) = family deviance at predict(x): rounding only
+    if r["score"] is None:
+        fails.append(Failure(i, "score:" + key0, "score on the training data panicked"))
+    else:
+        serr = abs(mp.mpf(r["score"]) - A["dev"])
+        stat("scoreacc", float(serr / (dfloor + tiny)), key0)
+        if serr > C_ROUND * dfloor:
+            fails.append(Failure(i, "score:" + key0, "score(x, y) = %r differs from the family deviance at inv_link(x.beta + offset) = %r by %.3e > %.3e" % (
+                r["score"], float(A["dev"]), float(serr), float(C_ROUND * dfloor)), f2h(float(A["dev"]))))
     r["_step"] = float(step * mp.sqrt(max(abs(Hi[a, a]) for a in range(p))))
     return r
 
@@ -578,7 +815,6 @@ def oracle(lines, impl):
             continue
         st, toks = parse_reply(rep)
         t = l.split()
-        n, p = int(t[2]), int(t[3])
         if st == "panic":
             # panics are legitimate only for malformed requests / singular information; flag a panic on a well-formed problem
             continue
@@ -619,6 +855,36 @@ def oracle(lines, impl):
             perr = max(abs(b["pred"][k] - a["pred"][perm[k]]) / (abs(a["pred"][perm[k]]) + 1e-300) for k in range(len(perm)))
             if perr > bnd * 10:
                 fails.append(Failure(i + 1, key0, "predictions are not permuted along with the observations: rel %.3e > %.3e" % (perr, bnd * 10)))
+    # ---- 8. one object fitted twice == the direct fit (`# same`); exact scale equivariance of the Gaussian fit (`# scale k`)
+    for i, l in enumerate(lines):
+        if i == 0 or i + 1 >= len(lines):
+            continue
+        if l.startswith("# same"):
+            if impl[i - 1].strip() != impl[i + 1].strip():
+                fails.append(Failure(i - 1, "refit:" + " ".join(lines[i + 1].split()[1:4]),
+                                     "a GLM object fitted a second time gives a different result than a fresh object on the same data: %s vs %s" % (
+                                         impl[i - 1][:120], impl[i + 1][:120]), impl[i + 1].strip()))
+        elif l.startswith("# scale"):
+            k = int(l.split()[2])
+            sa, ta = parse_reply(impl[i - 1])
+            sb, tb = parse_reply(impl[i + 1])
+            key0 = "scale:%s:k%d" % (" ".join(lines[i - 1].split()[1:4]), k)
+            if sa != sb:
+                fails.append(Failure(i + 1, key0, "status changes under an exact power-of-two rescaling of the responses: %s vs %s" % (sa, sb)))
+                continue
+            if sa != "ok":
+                continue
+            a, b = parse_result(ta), parse_result(tb)
+            sc = lambda v, e: None if v is None else [math.ldexp(u, e) for u in v]
+            exp = {"ok": a["ok"], "coef": sc(a["coef"], k), "dev": math.ldexp(a["dev"], 2 * k),
+                   "disp": None if a["disp"] is None else math.ldexp(a["disp"], 2 * k), "cov": sc(a["cov"], 2 * k),
+                   "se": sc(a["se"], k), "pred": sc(a["pred"], k),
+                   "score": None if a["score"] is None else math.ldexp(a["score"], 2 * k)}
+            hx = lambda v: v if isinstance(v, bool) or v is None else (fs(v) if isinstance(v, list) else f2h(v))
+            for name, e in exp.items():
+                if hx(e) != hx(b[name]):
+                    fails.append(Failure(i + 1, key0, "%s is not exactly rescaled by 2^%d: got %s, expected %s" % (name, k, hx(b[name])[:80], hx(e)[:80]), hx(e)))
+                    break
     if os.environ.get("C06_STATS"):
         print("[C06 oracle ratios] " + " ".join("%s=%.3g@%s" % (k, v, WHERE.get(k)) for k, v in sorted(STATS.items())), flush=True)
     return fails
